@@ -744,3 +744,15 @@ Proof.
     assert (H2 : x < k * Z.succ (x / k)) by (apply Z.mul_succ_div_gt; lia).
     nia.
 Qed.
+
+(* round with a precision whose power of ten is not finite: a finite number comes back as NaN
+   (10.0_f64.powi(400) is +inf; inf * 2.5 = inf; inf.round() / inf = NaN) *)
+Lemma round_non_finite_witness :
+  exists (pow10 : Z -> spec_float) kw v,
+    pow10 400 = S754_infinity false /\
+    v = VFloat (S754_finite false 5629499534213120 (-51)) /\
+    f_round pow10 kw v = BOk (VFloat S754_nan).
+Proof.
+  exists (fun _ => S754_infinity false), [(s2l "precision", VInt U64 400)], (VFloat (S754_finite false 5629499534213120 (-51))).
+  repeat split. vm_compute. reflexivity.
+Qed.
